@@ -105,6 +105,9 @@ pub struct SeqCase {
     pub sched: Option<Vec<u16>>,
     #[serde(default)]
     pub faults: Option<FaultPlan>,
+    /// additional parameter sets a flushed image is reopened with (C02)
+    #[serde(default)]
+    pub reopen_params: Vec<DevParams>,
 }
 
 pub fn layer_name(i: usize) -> String {
